@@ -4,7 +4,7 @@
 (*                                                                                    *)
 (* The log is totally ordered: a goroutine appends START before it invokes the call and  *)
 (* END (with the result) after the call returned.  Events:                               *)
-(*   {"ev":"reset"}                       a new scenario: fresh type URLs, KMS list cleared *)
+(*   {"ev":"reset","len":n}               a new scenario of n lines: fresh type URLs, KMS list cleared *)
 (*   {"ev":"start","g":g,"op":kind, ...}  url/mgr | client{id,prefix} | uri{prefix,rest}   *)
 (*   {"ev":"end","g":g,"res":r}           "ok" | "exists" | manager id | client id | "none" *)
 (*   {"ev":"barrier"}                     all goroutines have returned (no call pending)    *)
@@ -20,36 +20,35 @@ EXTENDS Integers, Sequences, FiniteSets, Json, IOUtils, TLC
 Trace == ndJsonDeserialize(IOEnv.VERIF_TRACE)
 Start == IF "VERIF_START" \in DOMAIN IOEnv THEN atoi(IOEnv.VERIF_START) ELSE 1
 
-NoneT == "none"
-Starts == {i \in DOMAIN Trace : Trace[i].ev = "start"}
-GT   == {Trace[i].g : i \in Starts}
-URLT == {Trace[i].url : i \in {j \in Starts : "url" \in DOMAIN Trace[j]}}
-MGRT == {Trace[i].mgr : i \in {j \in Starts : "mgr" \in DOMAIN Trace[j]}}
-CliStarts == {j \in Starts : "client" \in DOMAIN Trace[j]}
-CLIT == {Trace[i].client.id : i \in CliStarts}
-PrefixOf == [c \in CLIT |-> Trace[CHOOSE i \in CliStarts : Trace[i].client.id = c].client.prefix]
-URIT == {Trace[i].uri : i \in {j \in Starts : "uri" \in DOMAIN Trace[j]}}
+\* identities are records with an id: a manager [id], a client [id, prefix], "not found" NoneT
+NoneT == [id |-> "none"]
+GT == {Trace[i].g : i \in {j \in DOMAIN Trace : Trace[j].ev = "start"}}
 \* a real client answers Supported(uri) = HasPrefix(uri, its prefix); the driver's prefixes are pairwise prefix-free
-SupportsT(c, uri) == PrefixOf[c] = uri.prefix
+SupportsT(c, uri) == c.prefix = uri.prefix
 
 VARIABLES l, reg, kms, pend, bad
 vars == <<l, reg, kms, pend, bad>>
 
-\* the history variable of Registry is not carried along (the log IS the history)
-R == INSTANCE Registry WITH G <- GT, URL <- URLT, MGR <- MGRT, CLIENT <- CLIT, URI <- URIT,
+\* the history variable of Registry is not carried along (the log IS the history); the map is kept over the
+\* type URLs of the current scenario only (the reset line says how many lines the scenario has)
+R == INSTANCE Registry WITH G <- GT, URL <- {}, MGR <- {}, CLIENT <- {}, URI <- {},
                             Supports <- SupportsT, None <- NoneT, hist <- <<>>
 
-Fresh == /\ reg = [u \in URLT |-> NoneT] /\ kms = <<>> /\ pend = [g \in GT |-> R!Idle]
+ScenarioURLs(at) == {Trace[i].url : i \in {j \in (at + 1)..(at + Trace[at].len) : "url" \in DOMAIN Trace[j]}}
 
-Init == l = Start /\ bad = <<>> /\ Fresh /\ TLCSet(1, Start)
+Init == /\ l = Start /\ bad = <<>> /\ TLCSet(1, Start)
+        /\ reg = [u \in {} |-> NoneT] /\ kms = <<>> /\ pend = [g \in GT |-> R!Idle]
 
 OpOf(e) ==
-  CASE e.op = "Register"    -> [kind |-> "Register", url |-> e.url, mgr |-> e.mgr]
+  CASE e.op = "Register"    -> [kind |-> "Register", url |-> e.url, mgr |-> [id |-> e.mgr]]
     [] e.op = "Get"         -> [kind |-> "Get", url |-> e.url]
     [] e.op = "Unregister"  -> [kind |-> "Unregister", url |-> e.url]
-    [] e.op = "KmsRegister" -> [kind |-> "KmsRegister", client |-> e.client.id]
+    [] e.op = "KmsRegister" -> [kind |-> "KmsRegister", client |-> e.client]
     [] e.op = "KmsGet"      -> [kind |-> "KmsGet", uri |-> e.uri]
     [] e.op = "KmsClear"    -> [kind |-> "KmsClear"]
+
+\* results are logged as strings: a manager / client by its id
+ResStr(op, res) == IF op.kind \in {"Get", "KmsGet"} THEN res.id ELSE res
 
 Advance == l' = l + 1 /\ TLCSet(1, IF TLCGet(1) > l + 1 THEN TLCGet(1) ELSE l + 1)
 
@@ -57,7 +56,7 @@ Consume ==
   /\ l <= Len(Trace)
   /\ LET e == Trace[l] IN
        CASE e.ev = "reset" ->
-              /\ reg' = [u \in URLT |-> NoneT] /\ kms' = <<>> /\ pend' = [g \in GT |-> R!Idle]
+              /\ reg' = [u \in ScenarioURLs(l) |-> NoneT] /\ kms' = <<>> /\ pend' = [g \in GT |-> R!Idle]
               /\ bad' = <<>> /\ Advance
          [] e.ev = "start" ->
               /\ UNCHANGED <<reg, kms>> /\ Advance
@@ -66,7 +65,7 @@ Consume ==
                    ELSE pend' = [pend EXCEPT ![e.g] = [st |-> "called", op |-> OpOf(e)]] /\ UNCHANGED bad
          [] e.ev = "end" ->
               /\ pend[e.g].st = "lin"
-              /\ pend[e.g].res = e.res
+              /\ ResStr(pend[e.g].op, pend[e.g].res) = e.res
               /\ pend' = [pend EXCEPT ![e.g] = R!Idle]
               /\ UNCHANGED <<reg, kms, bad>> /\ Advance
          [] e.ev = "barrier" ->
